@@ -54,6 +54,12 @@ CLAIMED = {
    text="Proof (partial): Lang/Ops.v renders execute_op's operators (after the seven C01 fixes) on undefined/null/boolean/number/string operands and, separately, the ECMAScript abstract operations (ToNumber, ToString, ToBoolean, IsStrictlyEqual, IsLooselyEqual, IsLessThan, Number::exponentiate, the Int32 operators, short-circuit and nullish selection); c01_binop_refines_es / c01_unop_refines_es prove them equal for every operator and every pair of primitive operands, for every double model satisfying four IEEE comparison laws. Tie: all 23+6 operators x 19x19 operand values evaluated by tsrun, by the model inside Coq and by node (three-way equality, no deviation accepted in this fragment). Reference-only part: ~3000 further probes (operators on objects, conversions, ~520 library entry point x argument-shape probes, 60 control-flow/class/generator snippets) and a typed-grammar program stream against node; the 115 probes and 5 program seeds that deviate on the pinned+fixed tree are listed in corpus/C01/known_deviations.json and reported as KNOWN-FINDING classes; any other deviation is a violation with the probe/program as replay.",
    note="Trusted: Coq kernel + vm_compute with primitive floats; node 20 as reference engine (also supplies the ToNumber/toString tables of the operand pool); Rust harness; Python generators. Not proved: anything involving objects, the library, statements, functions, classes, generators (reference comparison only). The program stream uses fixed seeds on purpose (see assumptions in the evidence).",
    design_ref="DESIGN.md §5 C01"),
+ "C06": dict(
+   engine="Lang",
+   technique="Coq proof (trampoline discipline: one instruction per step, no native-stack growth for non-re-entering instructions, recursion of any depth costs heap frames only) + regenerated re-entry-site fact pinned by reflexivity + hook-instrumented runs of every call path and resource-exhaustion probes in a worker process",
+   text="Proof (partial): Lang/Trampoline.v models Interpreter::step / setup_trampoline_call / restore_from_trampoline_frame; c06_step_is_one_instruction and c06_call_depth_is_host_visible hold for every program and state, c06_recursion_costs_no_native_stack for every depth n; the re-entry weak spot is refuted by witness. Translator tie: the set of Rust functions that call call_function*/vm.run is regenerated from src/interpreter on every run and must equal Expected/FactsC06.v (reflexivity). Behavioural tie: 22 trampolined and 33 re-entering call paths x loop sizes, measured with the cfg(tsrun_verif) counters: instructions per host-visible step and nesting of run loops must be 1 and 0 on trampolined paths; deep recursion (20000) and long loops must complete one instruction per step; ten exhaustion probes (recursion through natives, deep JSON, huge sizes) run in a memory-limited worker, their deaths are the known findings E2/E3.",
+   note="Trusted: Coq kernel; tools/translate.py (regex/brace-matching reader of Rust sources); the instruction/run-depth hooks; Rust harness and worker isolation (prlimit). Not carried by the model: the native stack and the allocator.",
+   design_ref="DESIGN.md §5 C06"),
 }
 
 NOT_YET = "not claimed yet in this revision: its model/theorem pair is not built; see DESIGN.md §5 and §8 (build order)"
